@@ -6,7 +6,7 @@ namespace TM.Driver.C03
 open TM TM.World
 
 def nChains : Nat := 3          -- real chains 0,1,2; chain 3 is a name without client
-def nAcct : Nat := 11   -- … 10 = the forwarder (batching) contract
+def nAcct : Nat := 13   -- … 10 = the forwarder (batching) contract, 11 = the log emitter, 12 = the callback switch contract
 --         -- 0 user, 1 endpoint, 2 packet, 3 agent, 4 execute, 5 relayer, 6 7 receivers, 8 9 further senders
 def userNative : Nat := 100000000000000
 
@@ -14,6 +14,9 @@ structure St where
   w : World
   ntok : Nat → Nat               -- number of token ids in use per chain (id 0 = native coin)
   fixed : Bool
+  /-- sequences of every path that the dump looks at: every value the path's next-send counter has had (gaps of up to 64
+  filled) — counters can be planted at 2^63 and above, so "1 .. next" is not a loop -/
+  seen : Nat → Nat → List Nat := fun _ _ => [1]
 
 def freshCfg (i : Nat) : Cfg :=
   { clients := fun j => decide (j < nChains ∧ j ≠ i), trace := fun _ _ => none, ori := fun _ _ => none, scale := fun _ _ => 0 }
@@ -27,15 +30,26 @@ def fresh : St :=
 
 def kv (k : String) (v : Nat) : String := k ++ "=" ++ toString v
 
+def noteOne (l : List Nat) (n : Nat) : List Nat :=
+  let last := l.getLast?.getD 1
+  if n ≤ last then l
+  else if n - last ≤ 64 then l ++ (List.range (n - last)).map (fun k => last + 1 + k)
+  else l ++ [n]
+
+/-- record the current next-send counters of every path -/
+def note (st : St) : St :=
+  { st with seen := fun i d => if i < nChains ∧ d ≤ nChains then noteOne (st.seen i d) ((st.w.chains i).nextSeq d) else st.seen i d }
+
 /-- Canonical dump of one chain: fixed section order, numeric loops ascending, zero entries omitted. -/
-def dump (st : St) (i : Nat) : String :=
+def dump (st0 : St) (i : Nat) : String :=
+  let st := note st0
   let c := st.w.chains i
   let e := c.evm
   let toks := List.range (st.ntok i)
   let accts := List.range nAcct
   let dsts := (List.range (nChains + 1)).filter (· ≠ i)
-  let seqsTo (d : Nat) : List Nat := (List.range (c.nextSeq d + 1)).filter (· ≠ 0)
-  let seqsFrom (s : Nat) : List Nat := (List.range ((st.w.chains s).nextSeq i + 1)).filter (· ≠ 0)
+  let seqsTo (d : Nat) : List Nat := st.seen i d
+  let seqsFrom (s : Nat) : List Nat := if s < nChains then st.seen s i else []
   let bals := toks.flatMap fun t => accts.filterMap fun a =>
     if e.bal t a = 0 then none else some (kv ("b:" ++ toString t ++ "." ++ toString a) (e.bal t a))
   let alws := toks.flatMap fun t => [3, 8, 9, 10].filterMap fun a =>
@@ -104,7 +118,7 @@ def parseLeg (s : String) : Option Leg :=
     pure (.fakelog { src := 0, dst := d, seq := 0, sender := 0, transfer := none, call := .none, callback := false })
   | _ => none
 
-def step (st : St) (line : String) : St × String :=
+def step0 (st : St) (line : String) : St × String :=
   match fields line with
   | ["reset"] => (fresh, "ok")
   | ["mode", m] => ({ st with fixed := m != "unrepaired" }, "ok")
@@ -127,8 +141,9 @@ def step (st : St) (line : String) : St × String :=
   | ["mint", c, t, a, n] =>
     match nats [c, t, a, n] with
     | some [c, t, a, n] =>
+      let ok := decide (((st.w.chains c).evm.supply t) + n < U256)
       let st := { st with w := World.step st.fixed st.w (.mint c t a n) }
-      (st, "ok " ++ dump st c)
+      (st, (if ok then "ok " else "err ") ++ dump st c)
     | _ => (st, "bad-op")
   | ["approve", c, t, a, n] =>
     match nats [c, t, a, n] with
@@ -143,10 +158,11 @@ def step (st : St) (line : String) : St × String :=
       let st := { st with w := World.step st.fixed st.w (.transfer c t a b n) }
       (st, (if ok then "ok " else "err ") ++ dump st c)
     | _ => (st, "bad-op")
-  | ["send", c, snd, d, t, amt, rcv, ft, fa, call] =>
+  | "send" :: c :: snd :: d :: t :: amt :: rcv :: ft :: fa :: call :: rest =>
     match nats [c, snd, d, t, amt, rcv, ft, fa], parseCall call with
     | some [c, snd, d, t, amt, rcv, ft, fa], some call =>
-      let a : SendArgs := { dst := d, token := t, amount := amt, receiver := rcv, call := call, feeToken := ft, feeAmount := fa, callback := false }
+      let a : SendArgs := { dst := d, token := t, amount := amt, receiver := rcv, call := call, feeToken := ft, feeAmount := fa, callback := false,
+                            cbSwitch := rest.contains "cb" }
       match World.send (st.w.cfg c) c (st.w.chains c) snd a with
       | none => (st, "err " ++ dump st c)
       | some _ =>
@@ -158,6 +174,57 @@ def step (st : St) (line : String) : St × String :=
     | some [c, a, rank], some cts =>
       ({ st with w := World.step st.fixed st.w (.register c a rank cts) }, "ok")
     | _, _ => (st, "bad-op")
+  | ["cbset", c, b] =>
+    match nats [c, b] with
+    | some [c, b] => ({ st with w := World.step st.fixed st.w (.cbset c (b != 0)) }, "ok")
+    | _ => (st, "bad-op")
+  | ["restart", c] =>
+    match c.toNat? with
+    | some c => let st := { st with w := World.step st.fixed st.w (.restart c false) }; (st, "ok " ++ dump st c)
+    | none => (st, "bad-op")
+  | ["restartapp", c] =>
+    match c.toNat? with
+    | some c => let st := { st with w := World.step st.fixed st.w (.restart c true) }; (st, "ok " ++ dump st c)
+    | none => (st, "bad-op")
+  | ["plant", c, d, n] =>
+    -- static configuration, like `bind`: the first send sequence of the path c -> d (only while nothing was sent on it)
+    match nats [c, d, n] with
+    | some [c, d, n] =>
+      let ch := st.w.chains c
+      let cfg := st.w.cfg c
+      if ch.nextSeq d = cfg.seq0 d ∧ cfg.seq0 d ≤ n then
+        let cfg' : Cfg := { cfg with seq0 := upd1 cfg.seq0 d n }
+        let ch' : Chain := { ch with nextSeq := upd1 ch.nextSeq d n }
+        let st := { st with w := { st.w with cfg := upd1 st.w.cfg c cfg', chains := upd1 st.w.chains c ch' } }
+        (st, "ok " ++ dump st c)
+      else (st, "bad-op")
+    | _ => (st, "bad-op")
+  | "simrecv" :: s :: d :: q :: rest =>
+    match nats [s, d, q] with
+    | some [s, d, q] =>
+      let forged := rest.contains "forge"
+      let signer := signerOf rest
+      let accepted : Option Chain :=
+        if forged then none else
+        match findPacket (st.w.chains s).commits d q, (st.w.reg d).onOther s signer with
+        | some p, some _ => recvHandler st.fixed (st.w.cfg d) d (st.w.chains d) p
+        | _, _ => none
+      let st := { st with w := World.step st.fixed st.w (.discard (.recv s d q signer)) }
+      ((st, (if accepted.isSome then "ok " else "err ") ++ dump st d))
+    | _ => (st, "bad-op")
+  | "simack" :: s :: d :: q :: rest =>
+    match nats [s, d, q] with
+    | some [s, d, q] =>
+      let forged := rest.contains "forge"
+      let accepted : Option Chain :=
+        if forged then none else
+        match findPacket (st.w.chains s).commits d q, (st.w.chains d).acks s q with
+        | some p, some code =>
+          ackMsg (st.w.cfg s) s (st.w.chains s) p code ((st.w.reg s).onTeleport d (st.w.ackTag d s q)) (st.w.cbFail s)
+        | _, _ => none
+      let st := { st with w := World.step st.fixed st.w (.discard (.ack s d q)) }
+      ((st, (if accepted.isSome then "ok " else "err ") ++ dump st s))
+    | _ => (st, "bad-op")
   | ["fakelog", c, snd, spec] =>
     -- a transaction of `snd` straight to the log-emitting contract: a batch of one look-alike leg, no value
     match nats [c, snd], parseLeg ("L," ++ spec) with
@@ -201,7 +268,7 @@ def step (st : St) (line : String) : St × String :=
         if forged then none else
         match findPacket (st.w.chains s).commits d q, (st.w.chains d).acks s q with
         | some p, some code =>
-          ackHandler (st.w.cfg s) s (st.w.chains s) p code ((st.w.reg s).onTeleport d (st.w.ackTag d s q))
+          ackMsg (st.w.cfg s) s (st.w.chains s) p code ((st.w.reg s).onTeleport d (st.w.ackTag d s q)) (st.w.cbFail s)
         | _, _ => none
       match accepted with
       | none => (st, "err " ++ dump st s)
@@ -210,6 +277,10 @@ def step (st : St) (line : String) : St × String :=
         (st, "ok " ++ dump st s)
     | _ => (st, "bad-op")
   | _ => (st, "bad-op")
+
+/-- one op line; the sequences seen so far are recorded before the answer is printed -/
+def step (st : St) (line : String) : St × String :=
+  step0 (note st) line
 
 def main : IO Unit := TM.Driver.runStdin step fresh
 
